@@ -1,7 +1,7 @@
 """C03 - SMILES -> SELFIES -> SMILES round trip preserves the molecule atom for atom."""
 import time
 
-from .. import rt, judge
+from .. import rt, judge, skel
 from ..ctx import Ctx
 from ..oread import read_smiles
 from ..symstr import make_slots
@@ -79,6 +79,12 @@ def run(rep, tier, seed, budget):
         plan.append(("spelling template %d, relaxed table" % i, lambda t=t: make_slots("s", t), {"template": t}, "relaxed"))
     for i, t in enumerate(spacer_inputs()[:2 if quick else 4]):
         plan.append(("long ring span / branch %d (2-3 index symbols)" % i, lambda t=t: make_slots("s", t), {"template": [x if len(x) < 30 else "C*%d" % len(x) for x in t]}, "relaxed"))
+    # M-SKEL: every skeleton of n atoms in every writing order (spanning tree and ring bonds chosen by the solver)
+    SK = [(5, ("C",), ("",), ("", "=")), (6, ("C",), ("",), ("",))] if quick else \
+         [(5, ("C", "N", "[O+]"), ("", "="), ("", "=")), (6, ("C",), ("", "="), ("", "=")), (7, ("C",), ("",), ("",))]
+    for n, at, tb, rb in SK:
+        plan.append(("every skeleton of %d atoms %s in every writing order (tree bonds %s, ring bonds %s), relaxed table" % (n, list(at), list(tb), list(rb)),
+                     lambda n=n, at=at, tb=tb, rb=rb: skel.skeleton(n, at, tb, rb), skel.bounds(n, at, tb, rb), "relaxed"))
     for n in ((1, 2) if quick else (1, 2, 3)):
         plan.append(("uniform N=%d tokens, free table (all tables under which strict accepts)" % n,
                      lambda n=n: make_slots("s", [TOK3Q] * n), {"tokens": TOK3Q, "N_tokens": n}, "free"))
